@@ -371,6 +371,12 @@ func (e *termEnv) T(v ssa.Value) string {
 
 // compute builds the term of v from its operands, ignoring a recorded term of v itself.
 func (e *termEnv) compute(v ssa.Value) string {
+	if e.p != nil {
+		// results of helper calls the walker stepped through
+		if r := e.p.Resolve(v); r != v {
+			return e.T(r)
+		}
+	}
 	switch x := v.(type) {
 	case *ssa.Const:
 		if x.Value == nil {
@@ -510,6 +516,13 @@ func (e *termEnv) callTerm(x *ssa.Call) string {
 	}
 	callee := x.Call.StaticCallee()
 	if callee == nil {
+		if x.Call.IsInvoke() {
+			as := []string{e.T(x.Call.Value)}
+			for _, a := range x.Call.Args {
+				as = append(as, e.T(a))
+			}
+			return "(invoke " + x.Call.Method.Name() + " " + strings.Join(as, " ") + ")"
+		}
 		return "(dyn " + x.Call.Value.Name() + ")"
 	}
 	var as []string
@@ -608,6 +621,9 @@ func (c *Ctx) isPure(fn *ssa.Function) bool {
 					continue
 				}
 				sc := y.Call.StaticCallee()
+				if sc != nil && sc.Pkg != nil && (sc.Pkg.Pkg.Path() == "fmt" && strings.HasPrefix(sc.Name(), "Sprint") || sc.Pkg.Pkg.Path() == "fmt" && sc.Name() == "Errorf" || sc.Pkg.Pkg.Path() == "errors" && sc.Name() == "New") {
+					continue // building a message / error value has no effect on the program state
+				}
 				if sc == nil || !c.InModule(sc) || !c.isPure(sc) {
 					ok = false
 				}
@@ -626,6 +642,9 @@ func termLocalAddr(a ssa.Value) bool {
 	for i := 0; i < 8; i++ {
 		switch x := a.(type) {
 		case *ssa.Alloc:
+			if x.Comment == "varargs" || x.Comment == "complit" {
+				return true // fresh object built here
+			}
 			return !x.Heap
 		case *ssa.FieldAddr:
 			a = x.X
@@ -998,6 +1017,20 @@ func simplify(t string) string {
 			}
 		}
 	case "shl", "shr":
+		if len(args) == 2 && op == "shl" && strings.HasPrefix(args[0], "(+ ") {
+			// (a + b) << k  =  (a << k) + (b << k): one normal form for `(x+1)*4` and `x*4+4`
+			if k, okk := num(args[1]); okk && k >= 0 && k < 32 {
+				var parts []string
+				for _, p := range splitTerm(args[0][3 : len(args[0])-1]) {
+					if c, isC := num(p); isC {
+						parts = append(parts, strconv.FormatInt(c<<uint(k), 10))
+					} else {
+						parts = append(parts, simplify("(shl "+p+" "+args[1]+")"))
+					}
+				}
+				return normTerm("(+ " + strings.Join(parts, " ") + ")")
+			}
+		}
 		if len(args) == 2 {
 			a, oka := num(args[0])
 			b, okb := num(args[1])
